@@ -101,6 +101,9 @@ type Node struct {
 	Sigs   signature.SignatureService
 	Logger *RecLogger
 	Cancel context.CancelFunc
+	// TornNext, if set, makes the next CrashRestart come up on a database whose journal ends inside the
+	// record of this write (a process killed in the middle of a state write).
+	TornNext *TornWrite
 	Ctx    context.Context
 
 	Restarts int
